@@ -510,6 +510,21 @@ func (ir *ifdReader) parseGPSTimeStamp(t Tag) uint32 {
 			t.ByteOrder.Uint32(buf[12:16]),
 			t.ByteOrder.Uint32(buf[16:20]),
 			t.ByteOrder.Uint32(buf[20:24])}
+		// Hours, minutes and seconds are rationals: each may carry a fraction
+		// (61/2 minutes), which is kept until the sum is cut to whole seconds.
+		if value[1] > 0 && value[3] > 0 && value[5] > 0 {
+			h := uint64(value[0]) * hoursToSeconds
+			m := uint64(value[2]) * minutesToSeconds
+			sec := uint64(value[4])
+			d0, d1, d2 := uint64(value[1]), uint64(value[3]), uint64(value[5])
+			// whole seconds of each part, then what their fractions add up to
+			sum := h/d0 + m/d1 + sec/d2
+			sum += uint64(float64(h%d0)/float64(d0) + float64(m%d1)/float64(d1) + float64(sec%d2)/float64(d2) + 1e-9)
+			if sum <= math.MaxUint32 {
+				result = uint32(sum)
+			}
+			return result
+		}
 		if value[1] > 0 {
 			result += (value[0] / value[1]) * hoursToSeconds
 		}
